@@ -120,6 +120,8 @@ def gen_case(rng, tier):
     has_bn = any(t[2][0] == "b" for t in triples)
     if rng.random() < (0.7 if (endpoint and has_bn) else 0.1):
         options["examples_mode"] = rng.choice(["all", "cons", "cons", "shape"])
+    if options.get("detect_minimal_iri") and rng.random() < 0.5:
+        options["examples_mode"] = rng.choice(["all", "shape"])      # the two options together take a code path of their own
     if channel == "endpoint_deep":
         options["depth_for_building_subgraph"] = 2
         options["strict_syntax_with_corners"] = True
